@@ -297,7 +297,10 @@ mod verif {
 
     pub fn note(what: &str, c: &CallingProcess) {
         if *ACTIVE {
-            log(&mut SCHED.0.lock().unwrap(), &format!("{what} {}", describe(c)));
+            log(
+                &mut SCHED.0.lock().unwrap(),
+                &format!("{what} {}", describe(c)),
+            );
         }
     }
 
@@ -342,7 +345,10 @@ mod verif {
         let k = QUERY.load(Ordering::SeqCst);
         gate(&format!("q{k}.check"));
         if *ACTIVE {
-            log(&mut SCHED.0.lock().unwrap(), &format!("check q{k} {}", describe(c)));
+            log(
+                &mut SCHED.0.lock().unwrap(),
+                &format!("check q{k} {}", describe(c)),
+            );
         }
     }
 
@@ -363,7 +369,10 @@ mod verif {
         let mut s = mutex.lock().unwrap();
         let bg = is_bg(name);
         arrive(&mut s, bg);
-        if !s.events[s.idx.min(s.events.len())..].iter().any(|e| e == name) {
+        if !s.events[s.idx.min(s.events.len())..]
+            .iter()
+            .any(|e| e == name)
+        {
             log(&mut s, &format!("free {name}"));
             return;
         }
